@@ -80,11 +80,13 @@ class ZONEINFO(TZProvider):
                 for attr in list(sub.keys()):
                     if attr.lower().startswith("x-"):
                         sub.pop(attr)
-                # dateutil rejects parameters of TZNAME, e.g. TZNAME;LANGUAGE=en:CET
-                names = sub.get("TZNAME", [])
-                for name in names if isinstance(names, list) else [names]:
-                    if hasattr(name, "params"):
-                        name.params.clear()
+                # dateutil rejects parameters of TZNAME and TZID, e.g.
+                # TZNAME;LANGUAGE=en:CET or TZID;X-RICAL-TZSOURCE=TZINFO:...
+                for attr in ("TZNAME", "TZID"):
+                    values = sub.get(attr, [])
+                    for value in values if isinstance(values, list) else [values]:
+                        if hasattr(value, "params"):
+                            value.params.clear()
             return self._create_timezone(tz)
 
     def _create_timezone(self, tz: cal.Timezone) -> tzinfo:
